@@ -2909,8 +2909,19 @@ func (ff *FuncFacts) ExplorePaths(visit PathVisit, atExit func(st *State, trace 
 			outs[i] = st
 		}
 		if len(b.Succs) == 2 && lastExpr != nil && ff.condOf(b) != nil {
-			outs[0] = ff.assume(st, lastExpr, true)
-			outs[1] = ff.assume(st, lastExpr, false)
+			// path-sensitive: the false edge of A && B is taken because A failed,
+			// or because A held and B failed (dually for ||)
+			for i, s := range b.Succs {
+				if !s.Live {
+					continue
+				}
+				for _, v := range ff.edgeVariants(st, lastExpr, i == 0) {
+					if !contradictory(v) {
+						walk(s, v, trace)
+					}
+				}
+			}
+			return
 		} else if len(b.Succs) == 2 && lastExpr != nil {
 			// switch case with a tag
 			if cc, isCC := ff.eng.p.Parent(ff.fs.File, lastExpr).(*ast.CaseClause); isCC {
@@ -2953,4 +2964,34 @@ func contradictory(st *State) bool {
 		}
 	}
 	return false
+}
+
+// edgeVariants returns the path states for taking the given edge of a
+// condition, one per way the condition can evaluate to that value.
+func (ff *FuncFacts) edgeVariants(st *State, cond ast.Expr, pol bool) []*State {
+	cond = unparen(cond)
+	if u, ok := cond.(*ast.UnaryExpr); ok && u.Op == token.NOT {
+		return ff.edgeVariants(st, u.X, !pol)
+	}
+	be, ok := cond.(*ast.BinaryExpr)
+	if !ok || (be.Op != token.LAND && be.Op != token.LOR) {
+		return []*State{ff.assume(st, cond, pol)}
+	}
+	var out []*State
+	if (be.Op == token.LAND) == pol {
+		// both operands have the value pol
+		for _, a := range ff.edgeVariants(st, be.X, pol) {
+			out = append(out, ff.edgeVariants(a, be.Y, pol)...)
+		}
+		return out
+	}
+	// short-circuit: X alone decides, or X does not and Y decides
+	out = append(out, ff.edgeVariants(st, be.X, pol)...)
+	for _, a := range ff.edgeVariants(st, be.X, !pol) {
+		out = append(out, ff.edgeVariants(a, be.Y, pol)...)
+	}
+	if len(out) > 16 {
+		return []*State{ff.assume(st, cond, pol)}
+	}
+	return out
 }
